@@ -36,7 +36,8 @@ LEVELS = {
 }
 BUDGET = {'quick': float(os.environ.get('VERIF_QUICK_S', 40)), 'thorough': float(os.environ.get('VERIF_THOROUGH_S', 600))}
 CHUNK = 48  # multiple of 16: a chunk of a sched:* profile covers whole programs
-RUN_WALL_CAP = 15  # seconds per single simulated run
+RUN_CPU_CAP = 15  # CPU seconds per single simulated run
+RUN_WALL_CAP = 240  # wall seconds per single simulated run (backstop)
 
 
 def load_known():
@@ -73,13 +74,19 @@ def _on_alarm(signum, frame):
 
 
 def run_guarded(prop, sc):
+    # A single simulated run is capped in CPU time of this process (a busy machine - other checks, other jobs on the
+    # same cores - must not turn a slow run into a harness error) and, as a backstop against a run that blocks
+    # without burning CPU, in wall time.
+    signal.signal(signal.SIGPROF, _on_alarm)
     signal.signal(signal.SIGALRM, _on_alarm)
+    signal.setitimer(signal.ITIMER_PROF, RUN_CPU_CAP)
     signal.alarm(RUN_WALL_CAP)
     try:
         return props.run_one(prop, sc)
     except _Alarm:
-        return {'end': 'harness:wall_cap', 'harness': 'single run exceeded wall cap'}
+        return {'end': 'harness:run_cap', 'harness': 'single run exceeded its CPU / wall cap'}
     finally:
+        signal.setitimer(signal.ITIMER_PROF, 0)
         signal.alarm(0)
 
 
@@ -283,7 +290,7 @@ def main():
         while pending:
             done, pending = wait(pending, timeout=60, return_when=FIRST_COMPLETED)
             if not done:
-                if time.time() > deadline + 120:
+                if time.time() > deadline + 600:
                     harness_errors.append(('pool', 0, 'workers stalled'))
                     break
                 continue
